@@ -990,6 +990,9 @@ func selftest(bin, work string, runs, workers int) int {
 	for p := range budgets {
 		props = append(props, p)
 	}
+	if only := os.Getenv("VERIF_SELFTEST_PROPS"); only != "" {
+		props = strings.Fields(only) // e.g. "C15 C19": re-test the engines a change touched, with more seeds
+	}
 	sort.Strings(props)
 	bad := 0
 	total := 0
